@@ -317,6 +317,9 @@ pub enum Op {
     MetaJson,
     /// auxiliary data that is set but empty: 0 = set_metadata(empty map), 1 = set_auxiliary_data(blank)
     MetaEmpty(usize),
+    /// the most recent certificate / proposal / vote / collateral input handed to its sub-builder once
+    /// more (the content of the transaction does not change: these are sets / maps)
+    Again,
 }
 
 pub fn op_name(op: &Op) -> String {
@@ -346,6 +349,11 @@ pub struct Model {
     pub mint_and_output: bool,
     pub meta_json: bool,
     pub meta_empty: Option<usize>,
+    /// Plutus scripts (index into World::plutus) used BY REFERENCE for a purpose other than spending
+    pub ref_plutus: Vec<usize>,
+    /// the last operation that `Again` can repeat
+    pub last: Option<Op>,
+    pub again: u32,
 }
 
 pub struct St {
@@ -507,6 +515,7 @@ pub fn apply(w: &World, st: &mut St, op: Op) -> bool {
                 return false;
             }
             st.m.certs.push(k);
+            st.m.last = Some(op);
             true
         }
         Op::WdAgain(i) => {
@@ -542,6 +551,9 @@ pub fn apply(w: &World, st: &mut St, op: Op) -> bool {
                 6 => st.wds.add_with_native_script(&RewardAddress::new(1, &Credential::from_scripthash(&w.native[1].hash())), &bn(0), &NativeScriptSource::new(&w.native[1])),
                 // a second Plutus-script account (script 0)
                 5 => st.wds.add_with_plutus_witness(&RewardAddress::new(1, &Credential::from_scripthash(&w.plutus[0].hash())), &bn(1_700_000), &plutus_witness(w, 0, 0, RedeemerTag::new_reward(), 300 + i as u64, None)),
+                // the account of Plutus script 2 (V3), the script supplied by reference: its language is used by
+                // nothing else unless another item brings it
+                7 => st.wds.add_with_plutus_witness(&RewardAddress::new(1, &Credential::from_scripthash(&w.plutus[2].hash())), &bn(1_900_000), &plutus_witness(w, 2, 1, RedeemerTag::new_reward(), 300 + i as u64, None)),
                 0 => st.wds.add(&reward_key(0), &bn(WD_AMOUNT[0])),
                 1 => st.wds.add_with_native_script(&RewardAddress::new(1, &Credential::from_scripthash(&w.native[0].hash())), &bn(WD_AMOUNT[1]), &NativeScriptSource::new(&w.native[0])),
                 2 => st.wds.add(&reward_key(2), &bn(WD_AMOUNT[2])),
@@ -551,6 +563,9 @@ pub fn apply(w: &World, st: &mut St, op: Op) -> bool {
                 return false;
             }
             st.m.wds.push(i);
+            if i == 7 {
+                st.m.ref_plutus.push(2);
+            }
             true
         }
         Op::Mint(i) => {
@@ -573,6 +588,15 @@ pub fn apply(w: &World, st: &mut St, op: Op) -> bool {
                     let mw = MintWitness::new_plutus_script(&PlutusScriptSource::new(&w.plutus[0]), &red);
                     (st.mint.add_asset(&mw, &w.names[0], &Int::new_i32(2)), vec![((3, 0), 2)])
                 }
+                7 => {
+                    // Plutus policy 0 (V1) with the script supplied by reference
+                    if st.m.mint.keys().any(|k| k.0 == 3) {
+                        return false;
+                    }
+                    let red = redeemer_for(RedeemerTag::new_mint(), 407);
+                    let src = PlutusScriptSource::new_ref_input(&w.plutus[0].hash(), &op_outpoint(REF_SCRIPT_OUTPOINT), &plutus_lang(w, 0), REF_SCRIPT_SIZE);
+                    (st.mint.add_asset(&MintWitness::new_plutus_script(&src, &red), &w.names[0], &Int::new_i32(2)), vec![((3, 0), 2)])
+                }
                 _ => {
                     let a = st.mint.add_asset(&native, &w.names[0], &Int::new_i32(5));
                     let b = st.mint.add_asset(&native, &w.names[2], &Int::new_i32(-1));
@@ -584,6 +608,12 @@ pub fn apply(w: &World, st: &mut St, op: Op) -> bool {
             }
             for (k, q) in entries {
                 *st.m.mint.entry(k).or_insert(0) += q;
+            }
+            if i == 7 {
+                st.m.ref_plutus.push(0);
+            }
+            if i == 4 && st.m.ref_plutus.contains(&0) {
+                return false;
             }
             // an entry that nets to zero stays in the builder; building then refuses (or, were the
             // entry dropped, every policy index after it would shift): the state is kept
@@ -603,6 +633,7 @@ pub fn apply(w: &World, st: &mut St, op: Op) -> bool {
                 return false;
             }
             st.m.proposals.push(i);
+            st.m.last = Some(op);
             true
         }
         Op::Donate => {
@@ -627,6 +658,7 @@ pub fn apply(w: &World, st: &mut St, op: Op) -> bool {
                 return false;
             }
             st.m.collateral.push(i);
+            st.m.last = Some(op);
             true
         }
         Op::ReqSigner(k) => {
@@ -654,6 +686,14 @@ pub fn apply(w: &World, st: &mut St, op: Op) -> bool {
                 1 => st.votes.add(&Voter::new_constitutional_committee_hot_credential(&cred_key(1)), &aid, &vp),
                 2 => st.votes.add(&Voter::new_stake_pool_key_hash(&kh(2)), &aid, &vp),
                 3 => st.votes.add_with_native_script(&Voter::new_constitutional_committee_hot_credential(&Credential::from_scripthash(&w.native[0].hash())), &aid, &vp, &NativeScriptSource::new(&w.native[0])),
+                // the DRep of vote 4 (script 2, V3) with the script supplied by reference
+                7 => {
+                    if st.m.votes.contains(&4) {
+                        return false;
+                    }
+                    st.votes.add_with_plutus_witness(&Voter::new_drep_credential(&Credential::from_scripthash(&w.plutus[2].hash())), &aid, &vp, &plutus_witness(w, 2, 1, RedeemerTag::new_vote(), 500 + i as u64, None))
+                }
+                4 if st.m.votes.contains(&7) => return false,
                 5 => st.votes.add_with_plutus_witness(&Voter::new_constitutional_committee_hot_credential(&Credential::from_scripthash(&w.plutus[0].hash())), &aid, &vp, &plutus_witness(w, 0, 0, RedeemerTag::new_vote(), 500 + i as u64, None)),
                 // the same script as 5, voting in another role (DRep): two voters, one script hash
                 6 => st.votes.add_with_plutus_witness(&Voter::new_drep_credential(&Credential::from_scripthash(&w.plutus[0].hash())), &aid, &vp, &plutus_witness(w, 0, 0, RedeemerTag::new_vote(), 500 + i as u64, None)),
@@ -663,6 +703,10 @@ pub fn apply(w: &World, st: &mut St, op: Op) -> bool {
                 return false;
             }
             st.m.votes.push(i);
+            if i == 7 {
+                st.m.ref_plutus.push(2);
+            }
+            st.m.last = Some(op);
             true
         }
         Op::Meta => {
@@ -692,6 +736,31 @@ pub fn apply(w: &World, st: &mut St, op: Op) -> bool {
             }
             st.m.mint_and_output = true;
             true
+        }
+        Op::Again => {
+            let last = match st.m.last {
+                Some(o) => o,
+                None => return false,
+            };
+            if st.m.again >= 1 {
+                return false;
+            }
+            // forget the item in the model so that the same code hands it to the real sub-builder again,
+            // then put the model back: the content of the transaction is what it was
+            let saved = st.m.clone();
+            match last {
+                Op::Proposal(i) => st.m.proposals.retain(|x| *x != i),
+                Op::Cert(k) => st.m.certs.retain(|x| *x != k),
+                Op::Vote(i) => st.m.votes.retain(|x| *x != i),
+                Op::Coll(i) => st.m.collateral.retain(|x| *x != i),
+                _ => return false,
+            }
+            let ok = apply(w, st, last);
+            st.m = saved;
+            if ok {
+                st.m.again += 1;
+            }
+            ok
         }
         Op::MetaEmpty(i) => {
             if st.m.meta_empty.is_some() {
@@ -762,6 +831,11 @@ pub fn config(i: usize) -> (&'static str, Params) {
             p.churn = true;
             "set-remove-set"
         }
+        11 => {
+            // most transactions of the alphabet are larger than this once signed: building must refuse them
+            p.max_tx_size = 340;
+            "max_tx_size=340"
+        }
         _ => {
             // the fee itself sits at the 2^16 boundary of its CBOR width: 65 200 + 1 per byte crosses
             // 65 535 | 65 536 at a size of 336 bytes, inside the range of the transactions built here
@@ -780,6 +854,9 @@ pub enum Method {
     SelectThenChange(u8),
     SelectAndChange(u8),
     SelectAndChangeWithCollateralReturn(u8),
+    /// add_change_if_needed; if that fails, add_inputs_from (largest first) and add_change_if_needed
+    /// again on the same builder: a failed attempt must leave nothing behind
+    ChangeRetry,
 }
 
 pub fn strategy(i: u8) -> CoinSelectionStrategyCIP2 {
@@ -956,6 +1033,8 @@ pub fn has_plutus(w: &World, st: &St) -> bool {
         || st.m.mint.keys().any(|k| k.0 == 1 || k.0 == 3)
         || st.m.wds.contains(&3)
         || st.m.wds.contains(&5)
+        || st.m.wds.contains(&7)
+        || st.m.votes.contains(&7)
         || st.m.votes.contains(&4)
         || st.m.votes.contains(&5)
         || st.m.votes.contains(&6)
@@ -1021,6 +1100,27 @@ pub fn finish(w: &World, st: &St, params: &Params, method: Method, ctx: &mut Ctx
             }
         }
         Method::SelectAndChange(s) => with_rng(ctx, rng_free, || guard(|| tbm.add_inputs_from_and_change(&pool, strategy(s), &cc))),
+        Method::ChangeRetry => match guard(|| tbm.add_change_if_needed(&change)) {
+            Ok(Err(_)) => {
+                ctx.hit("retry:first-attempt-failed");
+                let r = with_rng(ctx, rng_free, || guard(|| tbm.add_inputs_from(&pool, strategy(0))));
+                match r {
+                    Ok(Ok(())) => {
+                        if plutus {
+                            let _ = tbm.calc_script_data_hash(&w.cost_models);
+                        }
+                        let r2 = guard(|| tbm.add_change_if_needed(&change));
+                        if let Ok(Ok(_)) = &r2 {
+                            ctx.hit("retry:second-attempt-succeeded");
+                        }
+                        r2
+                    }
+                    Ok(Err(e)) => Ok(Err(e)),
+                    Err(p) => Err(p),
+                }
+            }
+            other => other,
+        },
         Method::SelectAndChangeWithCollateralReturn(s) => with_rng(ctx, rng_free, || guard(|| tbm.add_inputs_from_and_change_with_collateral_return(&pool, strategy(s), &cc, &bn(150)).map(|_| true))),
     };
     match res {
@@ -1150,7 +1250,7 @@ pub fn ops_for(prop: &str) -> Vec<Op> {
             Op::Fee(0), Op::Fee(1), Op::Fee(2), Op::Fee(3), Op::Coll(1), Op::Meta, Op::RefIn(1), Op::RefIn(3),
             Op::WdAgain(0), Op::WdAgain(2), Op::Wd(4), Op::InAgain(0), Op::In(7, 0), Op::In(7, 1), Op::In(8, 0), Op::In(17, 0),
             Op::Ttl, Op::Treasury, Op::MintAndOutput, Op::MetaJson, Op::ExtraDatum(1), Op::ExtraDatum(0), Op::ExtraDatum(4), Op::MetaEmpty(0), Op::MetaEmpty(1),
-            Op::In(18, 0), Op::Mint(6), Op::Mint(5), Op::In(19, 0), Op::Wd(6), Op::In(20, 0),
+            Op::In(18, 0), Op::Mint(6), Op::Mint(5), Op::In(19, 0), Op::Wd(6), Op::In(20, 0), Op::Again, Op::Coll(3), Op::Coll(4), Op::Wd(7),
         ],
         // C16 looks at ordering and repetition in the built transaction: items that bring scripts,
         // datums, reference inputs, signers - one or two per source
@@ -1162,12 +1262,12 @@ pub fn ops_for(prop: &str) -> Vec<Op> {
         "C18" => vec![
             Op::In(0, 0), Op::In(2, 0), Op::In(1, 0), Op::In(5, 0), Op::In(13, 0), Op::In(12, 0), Op::In(6, 0), Op::In(6, 1), Op::In(10, 0), Op::In(10, 2), Op::In(16, 3), Op::In(16, 1), Op::In(7, 0), Op::In(7, 1), Op::In(7, 4), Op::In(11, 0), Op::In(8, 0), Op::In(8, 2), Op::In(14, 0), Op::In(14, 4), Op::In(17, 0), Op::In(17, 1),
             Op::Out(0), Op::Coll(1), Op::Coll(0), Op::Cert(5), Op::Cert(7), Op::Cert(8), Op::Cert(6), Op::Cert(13), Op::Cert(25), Op::Cert(27),
-            Op::Wd(0), Op::Wd(1), Op::Wd(3), Op::Wd(4), Op::Wd(6), Op::Vote(0), Op::Vote(1), Op::Vote(2), Op::Vote(3), Op::Vote(4),
-            Op::Mint(0), Op::Mint(2), Op::ReqSigner(3), Op::ReqSigner(0), Op::RefIn(0), Op::RefIn(1), Op::RefIn(2), Op::ExtraDatum(0), Op::ExtraDatum(1), Op::ExtraDatum(3), Op::Meta,
+            Op::Wd(0), Op::Wd(1), Op::Wd(3), Op::Wd(4), Op::Wd(6), Op::Wd(7), Op::Vote(0), Op::Vote(1), Op::Vote(2), Op::Vote(3), Op::Vote(4), Op::Vote(7),
+            Op::Mint(0), Op::Mint(2), Op::Mint(7), Op::ReqSigner(3), Op::ReqSigner(0), Op::RefIn(0), Op::RefIn(1), Op::RefIn(2), Op::ExtraDatum(0), Op::ExtraDatum(1), Op::ExtraDatum(3), Op::Meta,
         ],
         "C09" | "C10" => vec![
             Op::In(0, 0), Op::In(7, 0), Op::In(7, 1), Op::In(8, 0), Op::In(11, 0), Op::In(6, 0), Op::In(2, 0), Op::In(14, 0), Op::In(14, 2), Op::In(14, 4), Op::In(15, 0), Op::In(15, 1), Op::In(8, 3),
-            Op::Mint(0), Op::Mint(5), Op::Mint(2), Op::Mint(4), Op::Cert(25), Op::Cert(5), Op::Cert(26), Op::Cert(16), Op::Cert(27), Op::Wd(0), Op::Wd(1), Op::Wd(3), Op::Wd(5), Op::Vote(1), Op::Vote(3), Op::Vote(4), Op::Vote(5), Op::Vote(6),
+            Op::Mint(0), Op::Mint(5), Op::Mint(2), Op::Mint(4), Op::Cert(25), Op::Cert(5), Op::Cert(26), Op::Cert(16), Op::Cert(27), Op::Wd(0), Op::Wd(1), Op::Wd(3), Op::Wd(5), Op::Wd(7), Op::Mint(7), Op::Vote(7), Op::Vote(1), Op::Vote(3), Op::Vote(4), Op::Vote(5), Op::Vote(6),
             Op::Proposal(0), Op::Proposal(3), Op::Proposal(4), Op::MetaEmpty(0), Op::MetaEmpty(1),
             Op::ExtraDatum(0), Op::ExtraDatum(1), Op::ExtraDatum(3), Op::Meta, Op::Out(0),
         ],
@@ -1184,7 +1284,7 @@ pub fn core_ops_for(prop: &str) -> Vec<Op> {
             Op::Out(0), Op::Out(1), Op::Out(2), Op::Out(3), Op::Out(4),
             Op::Cert(0), Op::Cert(3), Op::Cert(7), Op::Cert(13), Op::Cert(20),
             Op::Wd(0), Op::Wd(2), Op::WdAgain(0), Op::Wd(4), Op::Mint(0), Op::Mint(1), Op::Mint(3), Op::Proposal(0), Op::Donate,
-            Op::Fee(0), Op::Fee(2), Op::Coll(1), Op::RefIn(3), Op::MintAndOutput, Op::ExtraDatum(1), Op::ExtraDatum(4), Op::In(18, 0), Op::Mint(6), Op::In(19, 0),
+            Op::Fee(0), Op::Fee(2), Op::Coll(1), Op::RefIn(3), Op::MintAndOutput, Op::ExtraDatum(1), Op::ExtraDatum(4), Op::In(18, 0), Op::Mint(6), Op::In(19, 0), Op::Again, Op::Coll(3),
         ],
         "C18" => vec![
             Op::In(0, 0), Op::In(2, 0), Op::In(5, 0), Op::In(13, 0), Op::In(12, 0), Op::In(6, 0), Op::In(6, 1), Op::In(10, 2), Op::In(16, 3), Op::In(7, 0), Op::In(7, 1), Op::In(7, 4), Op::In(11, 0), Op::In(8, 2), Op::In(14, 0), Op::In(17, 0),
@@ -1193,7 +1293,7 @@ pub fn core_ops_for(prop: &str) -> Vec<Op> {
         ],
         "C09" | "C10" => vec![
             Op::In(0, 0), Op::In(7, 0), Op::In(7, 1), Op::In(14, 0), Op::In(14, 2), Op::In(8, 0), Op::In(11, 0),
-            Op::Mint(0), Op::Mint(5), Op::Mint(2), Op::Mint(4), Op::Cert(25), Op::Cert(16), Op::Wd(1), Op::Wd(3), Op::Wd(5), Op::Vote(4), Op::Vote(5), Op::Vote(6),
+            Op::Mint(0), Op::Mint(5), Op::Mint(2), Op::Mint(4), Op::Cert(25), Op::Cert(16), Op::Wd(1), Op::Wd(3), Op::Wd(5), Op::Wd(7), Op::Mint(7), Op::Vote(7), Op::Vote(4), Op::Vote(5), Op::Vote(6),
             Op::Proposal(3), Op::Proposal(4), Op::ExtraDatum(0), Op::ExtraDatum(3),
         ],
         _ => ops_for(prop),
@@ -1228,7 +1328,7 @@ pub fn union_ops_for(prop: &str) -> Vec<Op> {
 pub fn methods_for(prop: &str, tier: Tier) -> Vec<Method> {
     match prop {
         "C05" | "C06" | "C07" | "C03" => {
-            let mut v = vec![Method::Change, Method::SelectThenChange(0), Method::SelectAndChange(1), Method::SelectAndChange(2), Method::SelectAndChangeWithCollateralReturn(0)];
+            let mut v = vec![Method::Change, Method::SelectThenChange(0), Method::SelectAndChange(1), Method::SelectAndChange(2), Method::SelectAndChangeWithCollateralReturn(0), Method::ChangeRetry];
             if tier.thorough() {
                 v.extend([Method::ChangeWithDatum, Method::SelectAndChange(0), Method::SelectAndChange(3), Method::SelectThenChange(3)]);
             }
@@ -1242,9 +1342,9 @@ pub fn configs_for(prop: &str, tier: Tier) -> Vec<usize> {
     match prop {
         "C05" | "C06" | "C07" | "C03" => {
             if tier.thorough() {
-                vec![0, 1, 2, 3, 4, 5, 6, 7, 8, 9, 10]
+                vec![0, 1, 2, 3, 4, 5, 6, 7, 8, 9, 10, 11]
             } else {
-                vec![0, 1, 2, 3, 5, 6, 8, 9, 10]
+                vec![0, 1, 2, 3, 5, 6, 8, 9, 10, 11]
             }
         }
         "C18" => vec![0, 5, 8],
